@@ -268,6 +268,14 @@ def r4(ctx):
         i = key.args[0].elems[0]
         want = App("numpy.linalg.norm", (Attr(Idx(Attr(m, "clusters"), (i,)), "computed_covariance"),))
         okk = key.args[1] == want
+    elif isinstance(key, Attr) and key.name == "__getitem__":
+        # key=spread.__getitem__: the key of id i is spread[i]
+        i = Sym("$i")
+        want = App("numpy.linalg.norm", (Attr(Idx(Attr(m, "clusters"), (i,)), "computed_covariance"),))
+        try:
+            okk = tm.index(key.base, (i,)) == want
+        except Exception:
+            okk = False
     ctx.check(okk, rk, "the key of cluster i is norm(clusters[i].computed_covariance) (its own spread, Frobenius norm)", role="rank:key",
               expected="key(i) = numpy.linalg.norm(model.clusters[i].computed_covariance)", found=str(key)[:200])
     # the ranked pool is what the refill loop consumes
